@@ -13,12 +13,19 @@ class C02(Prop):
                   "Entry::from_str, Relation::from_str, strip_pgp_signature, the seven keyword enumerations (tables regenerated from the sources) "
                   "ParsedVcs::from_str, lossy::{Relation, Relations}::from_str (for any version parser) and the nine lossy typed documents read "
                   "through the derive macro (Control, copyright, apt Release/Source/Package, removal, buildinfo, DEP-3, APT sources; for any "
-                  "external field parsers). PARTIAL: (a) wall-clock time, real stack and allocator are measured, not proved: the totality stream "
+                  "external field parsers). Byte level (str slicing panics off a character boundary): byte-offset transcriptions of lex_ "
+                  "(src/lex.rs), ParsedVcs::from_str (vcs.rs) and the source[..1] of get_pool_path, whose arms / slice constants / predicates are "
+                  "re-read from the source on every run (translate/bytesites.py), are proved never to slice off a boundary or out of range and to "
+                  "equal the char-level models for every string (C02_bytelex_safe, C02_bytelex_source, C02_parsed_vcs_bytes, "
+                  "C02_one_byte_guards over the generated character classes; C02_bytelex_prefix_refuted: the pre-d200b95 lexer panics on every "
+                  "leading multi-byte character). PARTIAL: (a) wall-clock time, real stack and allocator are measured, not proved: the totality stream "
                   "runs all ~58 public entry points on every case under a supervisor (panic / hang / abort are violations) and totality-scale "
-                  "times every entry point on adversarial seeds of growing size (worse-than-quadratic growth or > 5 s is a violation); (b) the "
+                  "times every entry point on adversarial seeds of growing size (worse-than-quadratic growth or > 5 s is a violation); (b) byte-boundary safety of the slicing in the remaining readers (relations lexer: chars().peekable(), no slicing; "
+                  "lossy readers, pgp, codecs: str methods returning boundaries) is not modelled at byte level and rests on the streams; (c) the "
                   "external parsers themselves (url, chrono, debversion, regex) and the remaining small FromStr impls (checksum/record types, "
                   "lossless typed wrappers, which only wrap Deb822::from_str) are decided by the stream.")
-    level_note = ("Models: the cones of C01, C06, C09, C14, C17, C18, C19, C20 (their own notes apply). Trusted in addition: the harness supervisor "
+    level_note = ("Models: the cones of C01, C06, C09, C14, C17, C18, C19, C20 (their own notes apply); model/Utf8.v (byte offsets, is_boundary proved equal to "
+                  "core::str's test on the encoded bytes), ByteLex.v, ByteVcs.v; the regex Match offsets are a modelled external (byte lengths of the hand matcher's parts). Trusted in addition: the harness supervisor "
                   "(per-case time budget VERIF_CASE_MS, kills and restarts the worker), timing thresholds of totality-scale.")
     rule = ("totality: every one of the ~58 public text-parsing entry points of the five crates on the same input: hand-written snippets of "
             "every file kind with all their truncations, CRLF / trailing-CR / non-ASCII / upper-case variants; every string up to length n over "
